@@ -24,13 +24,14 @@ Ops1 == {Op("call", <<C(0, 5)>>, 0), Op("call", <<C(1, 6)>>, 1), Op("call_try", 
                                        Op("trig_all", <<C(0, 8)>>, 0), Op("trig_any", <<C(1, 7), S(0)>>, 2)})
 Ops2 == {Op("call", <<C(2, 11)>>, 0), Op("call_try", <<C(2, 12)>>, 1), Op("trig", <<S(0), V, C(2, 13)>>, 0),
          Op("trig_any", <<S(0)>>, 0), Op("trig_all", <<S(1), C(2, 14)>>, 0)}
-\* Small (quick tier): two-operation programs start with one of three operations, process 2 runs one of
-\* three programs
-First1 == IF Small THEN {Op("call", <<C(0, 5)>>, 0), Op("call_try", <<C(1, 3)>>, 1), Op("trig_all", <<C(1, 5), C(0, 6)>>, 1)}
-          ELSE Ops1
+\* Small (quick tier): two-operation programs start with one of three operations, process 2 runs one of three
+\* programs.  Thorough: the full operation alphabet (12), four first operations, five programs of process 2.
+First1 == {Op("call", <<C(0, 5)>>, 0), Op("call_try", <<C(1, 3)>>, 1), Op("trig_all", <<C(1, 5), C(0, 6)>>, 1)}
+          \cup (IF Small THEN {} ELSE {Op("trig_any", <<C(1, 7), S(0)>>, 2)})
 Progs1 == {<<a>> : a \in Ops1} \cup {<<a, b>> : a \in First1, b \in Ops1}
-Progs2 == IF Small THEN {<<>>, <<Op("call", <<C(2, 11)>>, 0)>>, <<Op("trig_all", <<S(1), C(2, 14)>>, 0)>>}
-          ELSE {<<>>} \cup {<<a>> : a \in Ops2} \cup {<<a, b>> : a \in Ops2, b \in Ops2}
+Progs2 == {<<>>, <<Op("call", <<C(2, 11)>>, 0)>>, <<Op("trig_all", <<S(1), C(2, 14)>>, 0)>>}
+          \cup (IF Small THEN {} ELSE {<<Op("call_try", <<C(2, 12)>>, 1), Op("trig", <<S(0), V, C(2, 13)>>, 0)>>,
+                                        <<Op("trig_any", <<S(0)>>, 0), Op("call", <<C(2, 11)>>, 0)>>})
 CallConfigs == {[procs |-> <<p1, p2>>, valid |-> 0, nsrv |-> 3, hasmock |-> 0] : p1 \in Progs1, p2 \in Progs2}
 MockConfigs == {[procs |-> <<>>, valid |-> v, nsrv |-> 0, hasmock |-> 1] : v \in {0, 3}}
 AllConfigs == IF Mode = "call" THEN CallConfigs ELSE MockConfigs
